@@ -6,7 +6,20 @@
            ([exec_view_determined]), i.e. a key whose deadline has passed cannot be observed.
    Part 2: footprint ([upd]): a command changes only keys named among its arguments; with it
            well-formedness preservation and the frame lemmas over programs.
-   Part 3: what each command does to the deadline of a key (keep / remove / set). *)
+   Part 3: what each command does to the deadline of a key (keep / remove / set).
+
+   Adding a command family F (hashes, sets, ...) to [Exec.families]: the C06 theorems are about
+   [exec], i.e. about all of [families], so F must come with three facts, each proved per
+   executor by the tactics below ([sim_auto]/[sim_autol], [upd_auto], [keep_auto]; loops by
+   induction as for MSET/DEL/BLPOP) and collected per dispatch as for [sim_lists], [upd_lists],
+   [keep_lists]:
+     family_sim  F_dispatch   (equivalent databases: same reply, equivalent results)
+     family_upd  F_dispatch   (only keys among the arguments are written)
+     family_keep F_dispatch   (no deadline is touched -- or the command joins [ttl_changers]
+                               with its own lifecycle theorem)
+   and one more [Forall_cons] in [families_sim], [families_upd], [families_keep].  Executors that
+   read the database only through db_get/db_ttl and write it only through db_set/db_del/
+   db_set_ttl/db_del_ttl/purge need nothing else. *)
 Require Import Base.Bytes Base.GoInt Base.Reply Mem.Types Mem.Inv Glob.GlobModel.
 Require Import Mem.Strings Mem.Lists Mem.Exec.
 From Coq Require Import Permutation.
